@@ -4,8 +4,10 @@ from vcore import hexs
 
 ID = "C07"
 LEVEL = "proof"
-_T = ["scalar_negate_eq", "scalar_complement_eq", "scalar_add_eq", "scalar_sub_eq", "scalar_invert_rc", "sc_is_canonical_iff", "xmd_eq_rfc", "xmd_oversize_deviation",
-      "valid_point_decision", "scalarmult_rc_decision"]
+_T = ["scalar_reduce_eq", "scalar_negate_eq", "scalar_complement_eq", "scalar_add_general", "scalar_add_eq", "scalar_sub_general", "scalar_sub_eq", "scalar_mul_eq",
+      "scalar_invert_rc", "sc_is_canonical_iff", "scalar_add_deviation", "scalar_sub_deviation", "reduce64_spec", "negate_eq_spec", "complement_eq_spec", "add_eq_spec", "sub_eq_spec",
+      "valid_point_decision", "is_inf_iff", "scalar_bytes_value", "scalarmult_rc_decision", "scalarmult_base_rc_decision",
+      "xmd_eq_rfc", "xmd_eq_libsodium", "xmd_oversize_deviation", "from_string_eq_spec", "from_string_eq_rfc", "from_string_bad_alg", "ristretto_from_string_eq_spec", "from_string_ro_eq"]
 THEOREMS = vcore.theorems_in("SodiumModel/Properties/C07.lean", _T, "Sodium.C07")
 IMPORTS = ["SodiumModel.Properties.C07"] if THEOREMS else ["SodiumModel.Spec.Ed25519"]
 RULE = ("structured 32-byte encodings: every small-order point and alias, y >= p, x = 0 with sign bit, non-squares, prime-order points shifted by each torsion point, random; "
